@@ -149,6 +149,8 @@ int main(int argc, char** argv)
         cfg.tick_ms  = 1;
         cfg.ratio_q  = top.range(0, 4);
         cfg.rseed    = top.next();
+        if (((cfg.rseed >> 40) & 3) == 0) // an unusual max_load_factor (rehash on almost every insert, or never) in one burst of four
+            cfg.mlf = (float[]){0.01f, 0.25f, 0.7f, 3.7f, 16.0f, 1000.0f}[(cfg.rseed >> 44) % 6];
         vrandom::seed(cfg.rseed);
         ICache* cache = make_cache(cfg);
         // several sub-bursts on the same instance with clock bumps in between (no thread running then)
